@@ -3,9 +3,11 @@ package c16
 import (
 	"context"
 	"fmt"
+	"github.com/vektah/gqlparser/v2/gqlerror"
 	"sort"
 	"strconv"
 	"strings"
+	"sync/atomic"
 	"testing"
 
 	"github.com/99designs/gqlgen/graphql"
@@ -93,10 +95,28 @@ func load(files map[string]string) (*ast.Schema, error) {
 	return s, nil
 }
 
+// disableAgain is an extension registered after extension.Introspection that switches introspection
+// off again for the request (the usual way to restrict it to some callers).
+type disableAgain struct{}
+
+func (disableAgain) ExtensionName() string                   { return "DisableAgain" }
+func (disableAgain) Validate(graphql.ExecutableSchema) error { return nil }
+func (disableAgain) MutateOperationContext(ctx context.Context, rc *graphql.OperationContext) *gqlerror.Error {
+	rc.DisableIntrospection = true
+	return nil
+}
+
+// guardMode: disabled servers are built in one of two ways - no introspection extension at all, or
+// extension.Introspection followed by an extension that disables it again.
+var guardMode atomic.Int64
+
 func run(es graphql.ExecutableSchema, enabled bool, query string, vars map[string]any) (*graphql.Response, bool) {
 	ex := executor.New(es)
 	if enabled {
 		ex.Use(extension.Introspection{})
+	} else if guardMode.Add(1)%2 == 0 {
+		ex.Use(extension.Introspection{})
+		ex.Use(disableAgain{})
 	}
 	ctx := graphql.StartOperationTrace(context.Background())
 	rc, errs := ex.CreateOperationContext(ctx, &graphql.RawParams{Query: query, Variables: vars})
